@@ -22,6 +22,8 @@ fn hook_engine() -> Engine {
                 Scenario { name: "tick", weight: 4, run: c36::run_tick },
                 Scenario { name: "observation", weight: 2, run: c36::run_observation },
                 Scenario { name: "inline", weight: 1, run: c36::run_inline },
+                // replay-only unless VERIF_E5_INCLUDE_FINDINGS is set (FINDINGS.md #1)
+                Scenario { name: "passthrough_tick", weight: if std::env::var("VERIF_E5_INCLUDE_FINDINGS").is_ok() { 1 } else { 0 }, run: c36::run_passthrough_tick },
             ],
             quick_runs: 1_500_000,
             thorough_runs: 150_000_000,
